@@ -4,6 +4,17 @@
 #[derive(Clone)]
 pub struct Rng {
     s: [u64; 4],
+    /// decision tape (coverage-guided workload generation, see fuzz.rs): while it lasts, every draw is read from it - two bytes per
+    /// draw, so that a mutation of the tape is a change of one decision of the generator - and the xoshiro state takes over afterwards
+    tape: Option<(std::sync::Arc<[u8]>, usize)>,
+}
+
+thread_local! {
+    static TAPE: std::cell::RefCell<Option<(Vec<u8>, bool)>> = std::cell::RefCell::new(None);
+}
+/// install (or remove) the decision tape for the next case run on this thread (see `Rng::derive`)
+pub fn set_tape(tape: Option<&[u8]>) {
+    TAPE.with(|t| *t.borrow_mut() = tape.map(|b| (b.to_vec(), false)));
 }
 
 fn splitmix(x: &mut u64) -> u64 {
@@ -18,15 +29,43 @@ impl Rng {
     pub fn new(seed: u64) -> Self {
         let mut x = seed;
         let s = [splitmix(&mut x), splitmix(&mut x), splitmix(&mut x), splitmix(&mut x)];
-        Rng { s }
+        Rng { s, tape: None }
+    }
+    /// a generator whose first draws are dictated by `tape` (and whose later ones depend on nothing else)
+    pub fn from_tape(tape: &[u8]) -> Self {
+        let mut r = Rng::new(fnv(tape));
+        r.tape = Some((tape.into(), 0));
+        r
     }
     /// independent stream for (seed, stream, index)
     pub fn derive(seed: u64, stream: u64, index: u64) -> Self {
+        // coverage-guided mode: the first generator a case derives follows the decision tape, later ones depend on it through its hash
+        if let Some(r) = TAPE.with(|t| {
+            let mut t = t.borrow_mut();
+            let (tape, taken) = t.as_mut()?;
+            if !*taken {
+                *taken = true;
+                Some(Rng::from_tape(tape))
+            } else {
+                Some(Rng::new(fnv(tape) ^ stream.wrapping_mul(0xD6E8FEB86659FD93) ^ index.wrapping_mul(0xA0761D6478BD642F) ^ seed))
+            }
+        }) {
+            return r;
+        }
         let mut x = seed ^ stream.wrapping_mul(0xD6E8FEB86659FD93) ^ index.wrapping_mul(0xA0761D6478BD642F);
         let a = splitmix(&mut x);
         Rng::new(a ^ index.rotate_left(17) ^ stream.rotate_left(41))
     }
     pub fn u64(&mut self) -> u64 {
+        if let Some((t, pos)) = &mut self.tape {
+            if *pos + 2 <= t.len() {
+                let v = u16::from_le_bytes([t[*pos], t[*pos + 1]]) as u64;
+                *pos += 2;
+                // small values as they are (so that `% n` follows the tape closely); the upper half of the range is spread over 64 bits
+                return if v < 0x8000 { v } else { let mut x = v; splitmix(&mut x) };
+            }
+            self.tape = None;
+        }
         let r = self.s[1].wrapping_mul(5).rotate_left(7).wrapping_mul(9);
         let t = self.s[1] << 17;
         self.s[2] ^= self.s[0];
